@@ -10023,7 +10023,8 @@ class Format_Item_List(SequenceBase):  # pylint: disable=invalid-name
             if match:
                 # The current item matches with a hollerith string.
                 match_str = match.group(0)
-                hol_length_str = match_str[:-1]
+                # (blanks are allowed inside the count, see Hollerith_Item)
+                hol_length_str = match_str[:-1].replace(" ", "")
                 hol_length = int(hol_length_str)
                 num_chars = len(match_str) + hol_length
                 if len(current_string) < num_chars:
